@@ -426,6 +426,9 @@ func judgePost(i int, q0 *request, o *observed, name string) string {
 			if len(o.xAfter) != (xb+1)*recSz || !bytes.Equal(o.xAfter[:xb*recSz], o.xBefore[:xb*recSz]) {
 				fail("xpost", fmt.Sprintf("ALLPOST index %d -> %d bytes", len(o.xBefore), len(o.xAfter)))
 			} else {
+				if got := int(cache.Shm.Shm.Total[boards["ALLPOST"].bid-1]); got != xb+1 {
+					fail("total:logboard", fmt.Sprintf("Shm.Total of ALLPOST = %d after the copy, its index holds %d records", got, xb+1))
+				}
 				xr := o.xAfter[xb*recSz:]
 				cp, _ := os.ReadFile(bpath("ALLPOST", name))
 				if !bytes.Equal(xr[:28], rec[:28]) || !bytes.Equal(xr[34:48], rec[34:48]) || !bytes.Equal(cp, file) {
